@@ -173,3 +173,89 @@ Proof.
     replace ((quote_of k =? 34) || (quote_of k =? 39) || (quote_of k =? 96)) with true by (destruct k; reflexivity).
     exact Hv.
 Qed.
+
+(* ---------- member names: a.b versus a["b"] ---------- *)
+Lemma rune_units_scalar c : scalar c = true -> rune_units c = utf16_units c.
+Proof.
+  unfold scalar, rune_units, utf16_units. intros H. destruct (c <=? 65535) eqn:E; [reflexivity|].
+  rewrite (Z.mod_small ((c - 65536) / 1024) 1024) by lia. reflexivity.
+Qed.
+Lemma rune_units_all rs : forallb scalar rs = true -> flat_map rune_units rs = flat_map utf16_units rs.
+Proof.
+  induction rs as [|c r IH]; intros H; [reflexivity|]. cbn [forallb] in H. apply andb_true_iff in H as [H1 H2].
+  cbn [flat_map]. rewrite rune_units_scalar, IH by assumption. reflexivity.
+Qed.
+Lemma rune_units_u16 rs : forallb scalar rs = true -> all_u16 (flat_map rune_units rs).
+Proof.
+  induction rs as [|c r IH]; intros H; [constructor|]. cbn [forallb] in H. apply andb_true_iff in H as [H1 H2].
+  cbn [flat_map]. apply Forall_app. split; [|apply IH; exact H2].
+  unfold scalar in H1. unfold rune_units. destruct (c <=? 65535) eqn:E; repeat constructor; lia.
+Qed.
+
+Lemma ident_rest_runes_chars b rs : ident_rest_runes b rs = true -> Forall id_char rs.
+Proof.
+  revert b. induction rs as [|c r IH]; intros b H; [constructor|]. cbn [ident_rest_runes] in H.
+  apply andb_true_iff in H as [H1 H2]. constructor; [apply (test_char b); exact H1|apply (IH false); exact H2].
+Qed.
+
+Lemma irun_runes rs : Forall id_char rs -> irun INormal rs = Some rs.
+Proof.
+  induction 1 as [|c r Hc Hr IH]; [reflexivity|]. destruct Hc as [_ [_ [H92 _]]].
+  rewrite irun_raw by exact H92. rewrite IH. reflexivity.
+Qed.
+Lemma id_chars_scalar rs : Forall id_char rs -> forallb scalar rs = true.
+Proof.
+  induction 1 as [|c r Hc Hr IH]; [reflexivity|]. cbn [forallb]. rewrite IH, andb_true_r.
+  destruct Hc as [H0 [Hs _]]. unfold scalar. unfold is_surrogate in Hs. lia.
+Qed.
+
+Lemma quote_ident_ok cfg rs : Forall id_char rs ->
+  (uni_esc cfg || negb (existsb (fun c => 65535 <? c) rs)) = true ->
+  exists cps, quote_ident_cps cfg rs = Some cps /\ forallb scalar cps = true /\ irun INormal cps = Some rs.
+Proof.
+  induction 1 as [|c r Hc Hr IH]; intros Hcfg; [exists []; auto|].
+  assert (Hcfg' : (uni_esc cfg || negb (existsb (fun c => 65535 <? c) r)) = true).
+  { cbn [existsb] in Hcfg. destruct (uni_esc cfg); [reflexivity|]. cbn [orb] in *.
+    destruct (65535 <? c); [discriminate|exact Hcfg]. }
+  destruct (IH Hcfg') as [tl [E1 [E2 E3]]]. cbn [quote_ident_cps]. rewrite E1.
+  destruct Hc as [H0 [Hs [H92 _]]]. unfold is_surrogate in Hs.
+  destruct ((32 <=? c) && (c <=? 126)) eqn:Ea.
+  - exists (c :: tl). split; [reflexivity|]. split.
+    + cbn [forallb]. rewrite E2. unfold scalar. lia.
+    + rewrite irun_raw by exact H92. rewrite E3. reflexivity.
+  - destruct (c <=? 65535) eqn:Eb.
+    + exists (esc_u4 c ++ tl). split; [reflexivity|]. split.
+      * rewrite forallb_app, E2, andb_true_r. eapply good_scalar. apply (esc_u4_good false false). lia.
+      * rewrite irun_esc_u4 by lia. rewrite E3. reflexivity.
+    + assert (Hu : uni_esc cfg = true).
+      { cbn [existsb] in Hcfg. destruct (uni_esc cfg); [reflexivity|]. cbn [orb] in Hcfg.
+        replace (65535 <? c) with true in Hcfg by lia. discriminate. }
+      rewrite Hu. exists (esc_ubrace c ++ tl). split; [reflexivity|]. split.
+      * rewrite forallb_app, E2, andb_true_r. eapply good_scalar. apply (esc_ubrace_good false false). lia.
+      * rewrite irun_esc_ubrace by lia. rewrite E3. reflexivity.
+Qed.
+
+Lemma member_name_identity_all cfg ll rs :
+  forallb scalar rs = true ->
+  exists out, print_dot_name cfg ll rs = Some out /\ member_key out = Some (flat_map rune_units rs).
+Proof.
+  intros Hsc. unfold print_dot_name.
+  destruct (can_print_identifier cfg rs) eqn:Ecan.
+  - unfold can_print_identifier in Ecan. apply andb_true_iff in Ecan as [Hid Hcfg].
+    assert (Hch : Forall id_char rs).
+    { unfold IsIdentifierES5AndESNext in Hid. destruct rs; [discriminate|]. apply (ident_rest_runes_chars true). exact Hid. }
+    rewrite (rune_units_all rs Hsc).
+    unfold print_identifier_runes. destruct (ascii_only cfg) eqn:Ea.
+    + cbn [negb orb] in Hcfg. destruct (quote_ident_ok cfg rs Hch Hcfg) as [cps [Q1 [Q2 Q3]]].
+      rewrite Q1. cbn [option_map]. eexists; split; [reflexivity|].
+      cbn [member_key]. unfold ident_value. rewrite utf8_roundtrip by exact Q2. rewrite Q3. reflexivity.
+    + cbn [option_map]. eexists; split; [reflexivity|].
+      cbn [member_key]. unfold ident_value. rewrite utf8_roundtrip by exact Hsc.
+      rewrite (irun_runes rs Hch). reflexivity.
+  - eexists; split; [reflexivity|].
+    cbn [app member_key]. rewrite rev_app_distr. cbn [rev app]. rewrite rev_involutive.
+    pose proof (rune_units_u16 rs Hsc) as Hu.
+    unfold literal_value. rewrite utf8_roundtrip.
+    + apply quoted_cps_value. exact Hu.
+    + eapply good_scalar. apply print_quoted_cps_good. exact Hu.
+Qed.
